@@ -567,12 +567,16 @@ def find(req):
         return bad(*r)
     k16, b16 = bytes(16), bytes(16)
     wrong = [(m._expand_key, (bytes(15),)), (m._aes_encrypt_block, (bytes(15), key_expansion(k16))), (m._aes_decrypt_block, (bytes(17), key_expansion(k16)))]
-    for badkey in (b"", bytes(15), bytes(17), bytes(20), bytes(33)):
-        wrong += [(m.aes_ecb_encrypt, (badkey, b16)), (m.aes_ecb_decrypt, (badkey, b16)), (m.aes_cbc_encrypt, (badkey, b16, b16)), (m.aes_cbc_decrypt, (badkey, b16, b16))]
-    for baddata in (bytes(1), bytes(15), bytes(17), bytes(31)):
-        wrong += [(m.aes_ecb_encrypt, (k16, baddata)), (m.aes_ecb_decrypt, (k16, baddata)), (m.aes_cbc_encrypt, (k16, b16, baddata)), (m.aes_cbc_decrypt, (k16, b16, baddata))]
-    for badiv in (b"", bytes(15), bytes(17), bytes(32)):
-        wrong += [(m.aes_cbc_encrypt, (k16, badiv, b16)), (m.aes_cbc_decrypt, (k16, badiv, b16)), (m.aes_cbc_encrypt, (k16, badiv, b"")), (m.aes_cbc_decrypt, (k16, badiv, b""))]
+    # every combination of key / IV / message lengths in which at least one is wrong (the check order, early returns and
+    # short-cuts for empty or one-block messages must not let a wrong length through)
+    key_lens, iv_lens, data_lens = (0, 5, 15, 16, 17, 20, 24, 32, 33, 64), (0, 15, 16, 17, 32), (0, 1, 15, 16, 17, 31, 32, 48)
+    for kl in key_lens:
+        for dl in data_lens:
+            if kl not in (16, 24, 32) or dl % 16:
+                wrong += [(m.aes_ecb_encrypt, (bytes(kl), bytes(dl))), (m.aes_ecb_decrypt, (bytes(kl), bytes(dl)))]
+            for il in iv_lens:
+                if kl not in (16, 24, 32) or dl % 16 or il != 16:
+                    wrong += [(m.aes_cbc_encrypt, (bytes(kl), bytes(il), bytes(dl))), (m.aes_cbc_decrypt, (bytes(kl), bytes(il), bytes(dl)))]
     for fn, args in wrong:
         shown = {"args": [a.hex() if isinstance(a, bytes) else "round keys" for a in args]}
         try:
